@@ -32,7 +32,7 @@ class Session:
                 base += m["i"]
             lods.append(meshes)
             self.state.append(st)
-        model = mdlcases.model(rng, 5, lods, shapes=[{"name": "shp_a", "meshes": {}}])
+        model = mdlcases.model(rng, 5, lods, shapes=[{"name": "shp_a", "meshes": {}}, {"name": "shp_b", "meshes": {}}, {"name": "shp_c", "meshes": {}}])
         self.lines = [{"op": "mdl.open", "h": 1, "case": n, "bytes": list(mdl.build(model))},
                       {"op": "mdl.write", "h": 1, "case": n, "unedited": True}]
 
@@ -70,7 +70,7 @@ class Session:
             else:
                 self.submit(l, k, k == last)
 
-    def add_shape(self, l, j, nvals):
+    def add_shape(self, l, j, nvals, shape=0, shape_mesh=None):
         s = self.state[l][j]
         decl, _ = mdlcases.make_decl(s["els"], 0)
         vals = []
@@ -79,8 +79,9 @@ class Session:
             vals.append({"base": self.rng.randrange(len(s["indices"])), "vertex": v})
             if s["verts"] is not None:
                 s["verts"] = s["verts"] + [v]
-        self.lines.append({"op": "mdl.add_shape", "h": 1, "case": self.n, "lod": l, "shape": 0, "shape_mesh": s["shape_meshes"],
-                           "part": j, "values": vals, "shape_name": list(b"shp_a")})
+        self.lines.append({"op": "mdl.add_shape", "h": 1, "case": self.n, "lod": l, "shape": shape,
+                           "shape_mesh": s["shape_meshes"] if shape_mesh is None else shape_mesh,
+                           "part": j, "values": vals, "shape_name": list(b"shp_" + bytes([97 + shape]))})
         s["shape_meshes"] += 1
 
     def remove_shapes(self):
@@ -134,6 +135,33 @@ def random_history(n, rng, tier):
                 ses.add_shape(l2, j2, rng.randint(1, 2))
                 calls.append(["remove_shapes+add_shape", l2, j2])
     return Case(ses.lines, desc={"random history": calls})
+
+
+def shape_table_history(n, rng):
+    """shapes removed, then every shape's table rebuilt the way an exporter does it: for each shape, one add_shape_mesh
+    per mesh of the LOD in order - with an empty value list where the shape leaves the mesh alone"""
+    lods_abs = []
+    for _ in range(rng.randint(1, 2)):
+        lod, base = [], 0
+        for _ in range(rng.randint(2, 3)):
+            st = rng.choice(list(DECLS))
+            v, i = rng.choice([2, 3, 5]), rng.choice([3, 6])
+            lod.append({"v": v, "i": i, "strides": list(st), "subs": split(i, 1, base)})
+            base += i
+        lods_abs.append(lod)
+    ses = Session(rng, n, lods_abs)
+    ses.remove_shapes()
+    plan = []
+    for l in range(len(lods_abs)):
+        nm = len(lods_abs[l])
+        for shape in range(rng.randint(2, 3)):
+            pattern = [rng.random() < 0.5 for _ in range(nm)]
+            if not any(pattern):
+                pattern[rng.randrange(nm)] = True
+            for k in range(nm):
+                ses.add_shape(l, k, rng.randint(1, 2) if pattern[k] else 0, shape=shape, shape_mesh=k)
+            plan.append([l, shape, pattern])
+    return Case(ses.lines, desc={"shape tables rebuilt": plan})
 
 
 def codec_cases(n0, rng, tier):
@@ -201,12 +229,17 @@ def check(run):
     fx = REPO + "/resources/tests/c0201e0038_top_zeroed.mdl"
     cases.append(Case([{"op": "mdl.open", "h": 1, "case": n, "bytes": list(open(fx, "rb").read())},
                        {"op": "mdl.write", "h": 1, "case": n, "unedited": True}], desc="fixture c0201e0038_top_zeroed.mdl: parse, write"))
+    n += 1
     run.rule = ("edit histories of <= 2 calls, one per transition of the bounded edit model (replace with vertex counts 0/1/3/65535 and "
                 "index counts 0/3/6/8, add_shape_mesh, remove_shape_meshes over 21 initial models; a seeded sample of them is replayed, "
                 "each abstract replace as the real call plus the consistent re-submission of the LOD's following meshes), seeded random "
                 "histories of 1..12 replaces with up to 65535 vertices, unedited write of canonical models for every writable (usage, type) "
                 "pair, codec sweeps over every finite half and every byte, and the repository's sample model; after every settled edit "
-                "the written bytes, their length and the re-parsed geometry are validated; all cases non-trivial")
+                "the written bytes, their length and the re-parsed geometry are validated; shape tables removed and rebuilt for 2..3 shapes "
+                "over 2..3 meshes per LOD with empty value lists where a shape leaves a mesh alone: every part reports exactly the shapes "
+                "that were given values on it; all cases non-trivial")
+    for _ in range(60 if run.tier == "quick" else 600):
+        cases.append(shape_table_history(n, rng)); n += 1
     run.conform(cases, MODULE, CFG, shards=14, xmx="7g")
     run.assumptions = ["version-5 models with the writer's attribute encodings (position/normal/uv/weights/indices/bitangent/colour)",
                        "geometry of meshes above 2000 vertices is compared by the shim's bit-exact echo test (DESIGN appendix B)"]
